@@ -136,13 +136,37 @@ func Authenticate(ab *authboss.Authboss, w http.ResponseWriter, req **http.Reque
 		return errors.Wrap(err, "failed to save remember me token")
 	}
 
-	*req = (*req).WithContext(context.WithValue((*req).Context(), authboss.CTXKeyPID, pid))
+	ctx := context.WithValue((*req).Context(), authboss.CTXKeyPID, pid)
+	// The half-auth mark below only reaches the session with the response.
+	// The handlers serving this very request must see it too, otherwise the
+	// first request a cookie authenticates passes for fully authenticated.
+	state, _ := ctx.Value(authboss.CTXKeySessionState).(authboss.ClientState)
+	ctx = context.WithValue(ctx, authboss.CTXKeySessionState, halfAuthedState{state})
+	*req = (*req).WithContext(ctx)
 	authboss.PutSession(w, authboss.SessionKey, pid)
 	authboss.PutSession(w, authboss.SessionHalfAuthKey, "true")
 	authboss.DelCookie(w, authboss.CookieRemember)
 	authboss.PutCookie(w, authboss.CookieRemember, token)
 
 	return nil
+}
+
+// halfAuthedState is the session state of a request that was just
+// authenticated by a remember me cookie: it reports the half-auth mark in
+// addition to whatever the session held.
+type halfAuthedState struct {
+	authboss.ClientState
+}
+
+// Get a key from the session state
+func (h halfAuthedState) Get(key string) (string, bool) {
+	if key == authboss.SessionHalfAuthKey {
+		return "true", true
+	}
+	if h.ClientState == nil {
+		return "", false
+	}
+	return h.ClientState.Get(key)
 }
 
 // AfterPasswordReset is called after the password has been reset, since
